@@ -171,10 +171,47 @@ func streamInConcurrent(sw *badger.StreamWriter, ents []swEntry, nStreams int) e
 	return first
 }
 
+// streamInDynamic sends the entries as one stream in two Write calls (first fifth, then the rest) and
+// waits in between until the percentile value threshold has moved.
+func streamInDynamic(db *badger.DB, sw *badger.StreamWriter, ents []swEntry) error {
+	cut := len(ents) / 5
+	for cut < len(ents) && cut > 0 && ents[cut].key == ents[cut-1].key {
+		cut++
+	}
+	t0 := db.VerifValueThreshold()
+	for part, rng := range [][2]int{{0, cut}, {cut, len(ents)}} {
+		buf := z.NewBuffer(1<<16, "verif")
+		for _, e := range ents[rng[0]:rng[1]] {
+			kv := &pb.KV{Key: []byte(e.key), Version: e.ver.Ts, StreamId: 1, ExpiresAt: e.ver.ExpiresAt}
+			if e.ver.Del {
+				kv.Meta = []byte{badger.VerifBitDelete}
+			} else {
+				kv.Value = e.ver.Value()
+			}
+			if e.ver.UserMeta != 0 {
+				kv.UserMeta = []byte{e.ver.UserMeta}
+			}
+			badger.KVToBuffer(kv, buf)
+		}
+		err := sw.Write(buf)
+		_ = buf.Release()
+		if err != nil {
+			return err
+		}
+		if part == 0 {
+			deadline := time.Now().Add(2 * time.Second)
+			for db.VerifValueThreshold() == t0 && time.Now().Before(deadline) {
+				time.Sleep(time.Millisecond)
+			}
+		}
+	}
+	return nil
+}
+
 // C26 StreamWriter builds exactly the streamed database.
 func C26(c *core.Ctx) {
 	c.Rule("generated sorted entry sets (hostile keys, 1-3 versions per key newest first, deletes, past/future expiry, user meta, value sizes around the threshold) are cut into " +
-		"1-8 contiguous streams and written with random batching, interleaved stream ids and optional done markers (every fourth run: 3000-6000 keys, one goroutine per stream calling Write concurrently, one large and several small batches) through Prepare (fresh or previously filled database) or " +
+		"1-8 contiguous streams and written with random batching, interleaved stream ids and optional done markers (every fourth run: 3000-6000 keys, one goroutine per stream calling Write concurrently, one large and several small batches; every sixteenth run: VLogPercentile with a size mix that moves the value threshold while a batch is in flight) through Prepare (fresh or previously filled database) or " +
 		"PrepareIncremental (1-3 incremental runs with increasing versions on top of existing data), in normal and managed mode, plain/compressed/encrypted; after Flush and " +
 		"again after re-open the full state incl. AllVersions must equal the streamed entries (+ pre-existing data for incremental runs), the structure validator (C14) must pass, " +
 		"and in normal mode a new commit must get a version above every streamed version (C11 oracle); distinct = (mode, prepare kind, options, streams, done markers) classes")
@@ -194,6 +231,10 @@ func c26Run(c *core.Ctx, prop, work string, i int, r *rand.Rand) {
 	managed := i%2 == 0
 	incremental := i%3 == 1
 	concurrent := i%8 == 5 || i%8 == 2 // Write called from one goroutine per stream
+	dynamic := i%16 == 7               // VLogPercentile: the value threshold moves while batches are in flight
+	if dynamic {
+		concurrent = false
+	}
 	dir := filepath.Join(work, fmt.Sprintf("sw%d", i))
 	_ = os.MkdirAll(dir, 0o755)
 	opt, name := drvOptions(dir, i)
@@ -201,6 +242,10 @@ func c26Run(c *core.Ctx, prop, work string, i int, r *rand.Rand) {
 	// compaction is disabled here; incremental rounds may place many tables on L0, which must not
 	// stall the final memtable flush forever
 	opt.NumLevelZeroTablesStall = 1 << 20
+	if dynamic {
+		opt.ValueThreshold = 32
+		opt.VLogPercentile = 0.5
+	}
 	sizes := []int{0, 10, int(opt.ValueThreshold) - 1, int(opt.ValueThreshold), int(opt.ValueThreshold) + 1, 700}
 	db, err := openDB(opt, managed)
 	if err != nil {
@@ -244,7 +289,29 @@ func c26Run(c *core.Ctx, prop, work string, i int, r *rand.Rand) {
 		if concurrent {
 			nk = 3000 + r.Intn(3000)
 		}
+		if dynamic {
+			nk = 1500 + r.Intn(1500)
+		}
 		ents := genStreamData(r, nk, lo, lo+90, fmt.Sprintf("s%d.", round), sizes)
+		if dynamic {
+			// sizes by key rank: a first batch of 500-byte values raises the percentile threshold,
+			// the second batch holds many 8-byte values (which pull it down again while the batch
+			// is being processed) followed by 500-byte values
+			n1, n2 := len(ents)/5, len(ents)*9/10
+			for j := range ents {
+				if ents[j].ver.Del {
+					continue
+				}
+				switch {
+				case j < n1:
+					ents[j].ver.Len = 500
+				case j < n2:
+					ents[j].ver.Len = 8
+				default:
+					ents[j].ver.Len = 500
+				}
+			}
+		}
 		if concurrent {
 			// the globally newest version sits in one of the small trailing ranges
 			for j := len(ents) - 1 - r.Intn(len(ents)/20); j >= 0; j-- {
@@ -265,7 +332,9 @@ func c26Run(c *core.Ctx, prop, work string, i int, r *rand.Rand) {
 			ok = false
 			break
 		}
-		if concurrent {
+		if dynamic {
+			err = streamInDynamic(db, sw, ents)
+		} else if concurrent {
 			err = streamInConcurrent(sw, ents, nStreams)
 		} else {
 			err = streamIn(sw, r, ents, nStreams, done)
@@ -321,7 +390,7 @@ func c26Run(c *core.Ctx, prop, work string, i int, r *rand.Rand) {
 	}
 	_ = db.Close()
 	_ = os.RemoveAll(dir)
-	c.Distinct(fmt.Sprintf("%s|managed=%v|incr=%v|streams=%d|done=%v|concurrent=%v", name, managed, incremental, min(nStreams, 4), done, concurrent))
+	c.Distinct(fmt.Sprintf("%s|managed=%v|incr=%v|streams=%d|done=%v|concurrent=%v|dynamic-threshold=%v", name, managed, incremental, min(nStreams, 4), done, concurrent, dynamic))
 	if concurrent {
 		c.Count("sw.concurrent_write_runs", 1)
 	}
